@@ -48,7 +48,17 @@ def main(argv) -> int:
     if "--tier" in argv:
         tier = argv[argv.index("--tier") + 1]
         del argv[argv.index("--tier") : argv.index("--tier") + 2]
+    merge = "--merge" in argv
+    if merge:
+        argv.remove("--merge")
+    only = None
+    if "--only" in argv:
+        # --only <name-substring>[,<name-substring>...]
+        only = argv[argv.index("--only") + 1].split(",")
+        del argv[argv.index("--only") : argv.index("--only") + 2]
     items = collect(set(argv))
+    if only:
+        items = [x for x in items if any(o in x[0] for o in only)]
     sh("git", "-C", core.REPO_DIR, "worktree", "remove", "--force", WT)
     r = sh("git", "-C", core.REPO_DIR, "worktree", "add", "--detach", WT, "HEAD")
     if r.returncode != 0:
@@ -76,7 +86,15 @@ def main(argv) -> int:
     finally:
         sh("git", "-C", core.REPO_DIR, "worktree", "remove", "--force", WT)
         sh("rm", "-rf", "/tmp/verif_mutants_evidence")
-    with open(os.path.join(core.VERIF_DIR, "mutants", "RESULTS.json"), "w") as fh:
+    out_path = os.path.join(core.VERIF_DIR, "mutants", "RESULTS.json")
+    if merge and os.path.exists(out_path):
+        # a partial re-run: keep the other rows of the last full sweep
+        with open(out_path) as fh:
+            old = json.load(fh)
+        done = {(r["mutant"], r["property"]) for r in results}
+        results = [r for r in old.get("results", []) if (r["mutant"], r["property"]) not in done] + results
+        results.sort(key=lambda r: (r["mutant"].startswith("seeded/"), r["mutant"], r["property"]))
+    with open(out_path, "w") as fh:
         json.dump({"tier": tier, "repo_head": sh("git", "-C", core.REPO_DIR, "rev-parse", "HEAD").stdout.strip(), "results": results}, fh, indent=1)
     caught = sum(r["status"] == "caught" for r in results)
     print(f"mutants: {caught}/{len(results)} caught at tier {tier}")
